@@ -6,14 +6,21 @@
 //!
 //!   lockrun    <sys> <pattern: m p1 … pm>  one thread per script; closure number k of thread t does
 //!              `old = *v; pause; *v = mul*old + add; old` inside the closure passed to `apply`, the
-//!              pause taken from the pattern (0 none, 1 yield, 2..=9 spin 4^p, >= 10 sleep p µs).
+//!              pause taken from the pattern (0 none, 1 yield, 2..=9 spin 4^p, >= 10 sleep p µs); another
+//!              pause from the pattern is taken between two calls of `apply`.
 //!              Prints `<returns> <finals>`, or `FAIL timeout/deadlock …` / `FAIL panic …`.
 //!   o_lockrun  <sys> <pattern>             the same run, checked in-process: `ok …` iff the observed
 //!              history is serialisable (oracle family)
+//!   o_lockhammer <threads> <locks> <iters> <pattern>   every thread does <iters> increments (lock
+//!              (thread + k) mod locks); checked in-process: returned values per lock are exactly
+//!              init, init+1, …; per thread increasing; final = init + count
 //!   lockcheck  <sys> <returns> <finals>    `ok` iff some serial order of the closures (consistent with
 //!              each thread's program order) produces exactly these returned and final values, else
 //!              `no-serial-order` (independent implementation of the Lean driver's `lockcheck`)
+//!   lockcheckx                             same computation (corrupted control histories)
 //!   lockserial <sys> <order>               outcome of the serial execution in the given order
+//!   o_loom     <tier>                      runs the loom explorer built in ../harness-loom (replay of a loom
+//!                                          finding; check.py builds and runs it itself, see vlib/gen_lock.py)
 use crate::parse::*;
 use essential_lock::StdLock;
 use std::collections::HashSet;
@@ -32,8 +39,11 @@ struct Sys {
     scripts: Vec<Vec<Closure>>,
 }
 
-/// how long a whole `lockrun` may take before the threads are given up as deadlocked
-const RUN_TIMEOUT: Duration = Duration::from_secs(8);
+/// how long a whole `lockrun` may take before the threads are given up as deadlocked (a healthy
+/// run takes well under 0.5 s); after two such verdicts in this process later runs wait less
+const RUN_TIMEOUT: Duration = Duration::from_secs(5);
+const RUN_TIMEOUT_AFTER_DEADLOCKS: Duration = Duration::from_millis(1500);
+static DEADLOCKS: std::sync::atomic::AtomicUsize = std::sync::atomic::AtomicUsize::new(0);
 /// states expanded before the search gives up (same budget as the Lean driver)
 const SEARCH_LIMIT: usize = 200_000;
 
@@ -99,6 +109,8 @@ fn run_threads(sys: &Sys, pattern: &[u64]) -> Result<(Vec<Vec<i128>>, Vec<i128>)
                     old
                 });
                 rets.push(r);
+                // outside the lock: lets the other threads in, so that acquisitions interleave
+                pause(pat[(t * 5 + k * 3 + 1) % pat.len()]);
             }
             let _ = tx.send((t, rets));
         });
@@ -108,21 +120,23 @@ fn run_threads(sys: &Sys, pattern: &[u64]) -> Result<(Vec<Vec<i128>>, Vec<i128>)
     }
     drop(tx);
     let start = Instant::now();
+    let limit = if DEADLOCKS.load(std::sync::atomic::Ordering::Relaxed) >= 2 { RUN_TIMEOUT_AFTER_DEADLOCKS } else { RUN_TIMEOUT };
     let mut rets: Vec<Option<Vec<i64>>> = vec![None; n];
     let mut got = 0;
     while got < n {
-        let left = RUN_TIMEOUT.saturating_sub(start.elapsed());
+        let left = limit.saturating_sub(start.elapsed());
         match rx.recv_timeout(left) {
             Ok((t, r)) => {
                 rets[t] = Some(r);
                 got += 1;
             }
             Err(mpsc::RecvTimeoutError::Timeout) => {
+                DEADLOCKS.fetch_add(1, std::sync::atomic::Ordering::Relaxed);
                 let stuck: Vec<String> = (0..n).filter(|t| rets[*t].is_none()).map(|t| t.to_string()).collect();
                 return Err(format!(
-                    "FAIL timeout/deadlock: threads [{}] did not finish within {} ms",
+                    "FAIL timeout/deadlock: threads [{}] of {n} did not return from apply within {} ms",
                     stuck.join(","),
-                    RUN_TIMEOUT.as_millis()
+                    limit.as_millis()
                 ));
             }
             Err(mpsc::RecvTimeoutError::Disconnected) => {
@@ -134,6 +148,35 @@ fn run_threads(sys: &Sys, pattern: &[u64]) -> Result<(Vec<Vec<i128>>, Vec<i128>)
     let finals: Vec<i128> = locks.iter().map(|l| l.apply(|v| *v) as i128).collect();
     let rets = rets.into_iter().map(|r| r.unwrap().into_iter().map(|v| v as i128).collect()).collect();
     Ok((rets, finals))
+}
+
+/// Long runs of increments (`o_lockhammer`): the history is not shipped, it is checked here.  For
+/// increments, serialised means: per lock the returned values are exactly init, init+1, …, each
+/// thread sees its own returned values increase, and the final value is init + number of increments.
+fn check_increments(sys: &Sys, rets: &[Vec<i128>], finals: &[i128]) -> Result<usize, String> {
+    let mut total = 0;
+    for l in 0..sys.init.len() {
+        let mut seen: Vec<i128> = Vec::new();
+        for (t, sc) in sys.scripts.iter().enumerate() {
+            let mine: Vec<i128> = sc.iter().zip(&rets[t]).filter(|(c, _)| c.lock == l).map(|(_, v)| *v).collect();
+            if !mine.windows(2).all(|w| w[0] < w[1]) {
+                return Err(format!("lock {l}: thread {t} saw the counter stand still or go backwards"));
+            }
+            seen.extend(mine);
+        }
+        seen.sort();
+        let n = seen.len();
+        let init = sys.init[l] as i128;
+        if let Some(i) = (0..n).find(|i| seen[*i] != init + *i as i128) {
+            let what = if i > 0 && seen[i] == seen[i - 1] { "returned twice" } else { "out of sequence" };
+            return Err(format!("lock {l}: value {} {what} ({} increments): two closures overlapped", seen[i], n));
+        }
+        if finals[l] != init + n as i128 {
+            return Err(format!("lock {l}: lost update: final value {} after {n} increments from {init}", finals[l]));
+        }
+        total += n;
+    }
+    Ok(total)
 }
 
 /// serial execution in a given order; `None` if the order does not run every closure
@@ -248,7 +291,28 @@ pub fn run(fam: &str, t: &mut Toks) -> Option<R<String>> {
                     }),
                 }
             }
-            "lockcheck" => {
+            "o_lockhammer" => {
+                let (threads, nlocks, iters) = (t.nat()?, t.nat()?, t.nat()?);
+                let pattern = t.list(|t| t.u64())?;
+                t.done()?;
+                if threads == 0 || threads > 64 || nlocks == 0 || iters > 100_000 {
+                    return Err("range".into());
+                }
+                let s = Sys {
+                    init: (0..nlocks as i64).map(|l| 10 * l).collect(),
+                    scripts: (0..threads)
+                        .map(|th| (0..iters).map(|k| Closure { lock: (th + k) % nlocks, mul: 1, add: 1 }).collect())
+                        .collect(),
+                };
+                Ok(match run_threads(&s, &pattern) {
+                    Err(e) => e,
+                    Ok((rets, finals)) => match check_increments(&s, &rets, &finals) {
+                        Ok(n) => format!("ok {n} increments"),
+                        Err(e) => format!("FAIL {e}"),
+                    },
+                })
+            }
+            "lockcheck" | "lockcheckx" => {
                 let s = sys(t)?;
                 let rets: Vec<Vec<i128>> = t.list(|t| Ok(t.words()?.into_iter().map(|v| v as i128).collect()))?;
                 let finals: Vec<i128> = t.words()?.into_iter().map(|v| v as i128).collect();
@@ -262,6 +326,25 @@ pub fn run(fam: &str, t: &mut Toks) -> Option<R<String>> {
                 Ok(match serial_outcome(&s, &order) {
                     Some((r, f)) => show_outcome(&r, &f),
                     None => "incomplete".into(),
+                })
+            }
+            "o_loom" => {
+                let tier = t.tok()?.to_string();
+                t.done()?;
+                let bin = std::env::var("VERIF_LOOM_BIN").unwrap_or_else(|_| {
+                    concat!(env!("CARGO_MANIFEST_DIR"), "/../harness-loom/target/release/harness-loom").to_string()
+                });
+                Ok(match std::process::Command::new(&bin).arg(&tier).stderr(std::process::Stdio::null()).output() {
+                    Err(e) => format!("FAIL cannot run {bin}: {e}"),
+                    Ok(o) => {
+                        let out = String::from_utf8_lossy(&o.stdout);
+                        let line = out.lines().find(|l| l.starts_with("LOOM")).unwrap_or("no output").to_string();
+                        if o.status.success() && line.starts_with("LOOM ok") {
+                            format!("ok {line}")
+                        } else {
+                            format!("FAIL {line}")
+                        }
+                    }
                 })
             }
             _ => Err("nofam".into()),
